@@ -995,7 +995,9 @@ def _simplify_function_call(call: HplFunctionCall) -> HplExpression:
         if is_number_literal(arg1) and is_number_literal(arg2):
             assert isinstance(arg1, HplLiteral)
             assert isinstance(arg2, HplLiteral)
-            return HplLiteral.number(math.gcd(arg1.value, arg2.value))
+            # math.gcd only takes int objects; 0.0 and 2.0 are integers too
+            if arg1.value == int(arg1.value) and arg2.value == int(arg2.value):
+                return HplLiteral.number(math.gcd(int(arg1.value), int(arg2.value)))
 
     return call
 
